@@ -19,6 +19,7 @@ import (
 	"go.amzn.com/lambda/fatalerror"
 	"go.amzn.com/lambda/interop"
 	"go.amzn.com/lambda/metering"
+	"go.amzn.com/lambda/vhook"
 
 	"github.com/google/uuid"
 	log "github.com/sirupsen/logrus"
@@ -400,6 +401,7 @@ func (s *Server) Reset(reason string, timeoutMs int64) (*statejson.ResetDescript
 		}
 
 		resetSuccess, resetFailure := s.sandboxContext.Reset(reset)
+		vhook.At("reset.beforeServerClear")
 		s.Clear() // clear server state to prepare for new invokes
 		s.setRapidPhase(phaseIdle)
 		s.setRuntimeState(runtimeNotStarted)
@@ -559,6 +561,7 @@ func (s *Server) FastInvoke(w http.ResponseWriter, i *interop.Invoke, direct boo
 			// Rapid constructs a response body itself when invoke fails, with error type.
 			// These are on the handleInvokeError path, may occur during timeout resets,
 			// failure reset (proc exit). It is expected to be non-nil on all invoke failures.
+			vhook.At("fastinvoke.failure")
 			if invokeFailure.DefaultErrorResponse == nil {
 				log.Panicf("default error response was nil for invoke failure, %v", invokeFailure)
 			}
@@ -716,6 +719,7 @@ func (s *Server) Invoke(responseWriter http.ResponseWriter, invoke *interop.Invo
 	var err error
 	select {
 	case timeoutErr := <-timeoutChan:
+		vhook.At("invoke.timeoutFired")
 		s.Reset(autoresetReasonTimeout, resetDefaultTimeoutMs)
 		select {
 		case releaseErr := <-releaseErrChan: // when AwaitRelease() has errors
